@@ -49,10 +49,10 @@ CodeAccepts(k, t) ==
                                 [] OTHER -> {"canon", "alt"})
      \/ k = "gz" /\ t[2] = "zl" /\ t[3] \in {"canon", "alt"}
 CodeDec(k, t) == IF t = Empty THEN Empty ELSE IF CodeAccepts(k, t) THEN t[4] ELSE ERR
-\* the reference decoders (complete streams of the right format only; an empty body is an empty content)
+\* the reference decoders (complete streams of the right format only: zero bytes are not a stream, although the
+\* code's own decoders return b"" for them)
 RefDec(f, t) == IF f = "id" THEN t
                 ELSE IF f = "x" THEN ERR
-                ELSE IF t = Empty THEN Empty
                 ELSE IF t[1] = "e" /\ t[2] = f /\ t[3] \in (IF f = "zl" THEN {"canon", "alt", "raw"} ELSE {"canon", "alt"})
                      THEN t[4] ELSE ERR
 
@@ -102,7 +102,7 @@ MsgEncodeOp(ch, msg, c) ==
 
 \* ---- projections (the same records props/C31.py logs) -----------------------------------------------------
 FamOf(ce) == IF ce = "-" THEN "id" ELSE RF[ce]
-St(msg) == [ce |-> msg.ce, fam |-> FamOf(msg.ce), raw |-> Id(msg.raw), rawlen |-> 0, cl |-> msg.cl,
+St(msg) == [ce |-> msg.ce, fam |-> FamOf(msg.ce), raw |-> Id(msg.raw), empty |-> msg.raw = Empty, rawlen |-> 0, cl |-> msg.cl,
             te |-> msg.te, rd |-> Id(RefDec(FamOf(msg.ce), msg.raw))]
 
 Init == cache = NoCache /\ msgs = [i \in 1..NMsg |-> Absent] /\ ops = 0 /\ mon = MonInit /\ obs = <<>>
